@@ -3,6 +3,6 @@
 c=$1; shift
 git -C /repo status --short | grep -q . && { echo "/repo not clean"; exit 2; }
 git -C /repo revert --no-commit $c >/dev/null || exit 2
-for p in "$@"; do ./check $p 2>&1 | grep -v "^WARNING" | tail -4; done
+for p in "$@"; do ./check $p 2>&1 | grep -v "^WARNING" | tail -4; git -C /verif checkout -- evidence/$p.json 2>/dev/null; done
 git -C /repo revert --abort 2>/dev/null; git -C /repo reset -q --hard HEAD
 git -C /repo status --short | head -3
